@@ -192,6 +192,22 @@ fn addr_encode(a: &[&str]) -> String {
 
 fn run(a: &[&str]) -> String {
     match a[0] {
+        "nfid_kind" => {
+            match NonFungibleLocalId::from_str(&String::from_utf8(hex(a.get(1).copied().unwrap_or(""))).unwrap()) {
+                Ok(id) => {
+                    // the text form is lossless: Display of the parsed id is the input again
+                    let back = id.to_string().into_bytes() == hex(a.get(1).copied().unwrap_or(""));
+                    let k = match id {
+                        NonFungibleLocalId::String(_) => 0,
+                        NonFungibleLocalId::Integer(_) => 1,
+                        NonFungibleLocalId::Bytes(_) => 2,
+                        NonFungibleLocalId::RUID(_) => 3,
+                    };
+                    format!("ok {} {}", k, back as u8)
+                }
+                Err(_) => "err".to_string(),
+            }
+        }
         "addr_decode" => addr_decode(&a[1..]),
         "addr_encode" => addr_encode(&a[1..]),
         "grc_valid_nf" => {
